@@ -40,7 +40,7 @@ REACH = {
     "quick": {"date_values": 30000, "time_millis_values": 50000, "time_micros_values": 20000,
               "timestamp_values": 40000, "local_timestamp_values": 10000, "uuid_values": 2000,
               "decimal_cases": 20000, "decimal_must_raise": 2000, "decimal_must_succeed": 8000,
-              "decimal_neg_zero": 50, "decimal_fixed_boundary": 200, "decimal_by_reference": 500, "decimal_piecewise_files": 500, "subsecond_offsets": 500, "decimal_in_float_unions": 500, "decimal_rejection_recovery": 200},
+              "decimal_neg_zero": 50, "decimal_fixed_boundary": 200, "decimal_by_reference": 500, "decimal_piecewise_files": 500, "subsecond_offsets": 500, "decimal_in_float_unions": 500, "decimal_rejection_recovery": 200, "decimal_goes_to_later_branch": 300},
     "thorough": {"date_values": 3652059, "time_millis_values": 86400000},
 }
 EPOCH_ORD = dt.date(1970, 1, 1).toordinal()
@@ -413,6 +413,28 @@ def decimals(sh, fa, rng, spec):
                     sh.violation("unrepresentable-decimal-stored", "%r (precision %d, scale %d, size %s) was written as %s instead of raising"
                                  % (d, p, s, size, out.getvalue().hex()), info)
                     return
+                if d.is_finite() and (label in ("pos_exp", "fixed_boundary", "surplus_digits") or rng.random() < 0.3):
+                    # next to a decimal branch that can hold it, the value goes there
+                    for big in ({"type": "fixed", "name": "Big", "size": 20, "logicalType": "decimal", "precision": 40, "scale": s},
+                                {"type": "bytes", "logicalType": "decimal", "precision": 40, "scale": s}):
+                        if classify(d, 40, s, big.get("size"))[0] != "ok":
+                            continue
+                        direct = io.BytesIO()
+                        fa.schemaless_writer(direct, copy.deepcopy(big), d)
+                        for uj, idx in (([js, big], 1), (["null", js, big], 2), ({"type": "map", "values": [js, big]}, 1)):
+                            o2 = io.BytesIO()
+                            st2, err2 = guard(fa.schemaless_writer, o2, copy.deepcopy(uj), {"k": d} if isinstance(uj, dict) else d)
+                            want = (b"\x02\x02k" if isinstance(uj, dict) else b"") + bytes([idx * 2]) + direct.getvalue() + (b"\x00" if isinstance(uj, dict) else b"")
+                            if st2 == "exc" or o2.getvalue() != want:
+                                sh.violation("representable-decimal-rejected" if st2 == "exc" else "decimal-stored-as-different-number",
+                                             "%r does not fit the first decimal branch of %s but fits a later one: %s"
+                                             % (d, printable(uj, 160), exc_name(err2) if st2 == "exc" else o2.getvalue().hex()), dict(info, schema=uj))
+                                return
+                            st3, ok3 = guard(fa.validate, {"k": d} if isinstance(uj, dict) else d, copy.deepcopy(uj), raise_errors=False)
+                            if st3 == "exc" or ok3 is not True:
+                                sh.violation("representable-decimal-rejected", "validate: %r under %s gives %s" % (d, printable(uj, 160), exc_name(ok3) if st3 == "exc" else ok3), dict(info, schema=uj))
+                                return
+                        sh.count("decimal_goes_to_later_branch")
                 if rng.random() < 0.25:
                     # next to a floating-point branch the value must not slip in there instead ...
                     for uj in ([js, "double"], ["float", js], ["null", "double", js]):
